@@ -1053,7 +1053,7 @@ fn run(case: &Value) -> Vec<Value> {
                 }
                 "formula" => {
                     // a formula with a plain cached text (cached rich / padded text are C01's open findings)
-                    cell.set_value_string("cached");
+                    cell.set_value_string(if so(ed, "cached").is_empty() { "cached" } else { so(ed, "cached") });
                     cell.set_formula(so(ed, "v"));
                 }
                 other => panic!("unknown edit kind {}", other),
